@@ -52,10 +52,15 @@ def _corpus_files(prop, stream):
     return sorted(p for p in d.glob(f"{stream}*.ops"))
 
 
+QUICK_TIMEOUT = 300   # s (times brv.TIMEOUT_FACTOR): a quick stream runs well under a minute; a harness that hangs on a
+                      # broken implementation must not keep a quick check waiting for the thorough tier's limit
+
+
 def _run_stream_file(st, script_path, wd, tag):
     go_obs = wd / f"{st.name}.{tag}.go.obs"
     model_obs = wd / f"{st.name}.{tag}.model.obs"
-    rc, err = brv.run_harness(st.harness, script_path, go_obs, timeout=st.timeout, args=st.harness_args)
+    timeout = min(st.timeout, QUICK_TIMEOUT) if _TIER == "quick" else st.timeout
+    rc, err = brv.run_harness(st.harness, script_path, go_obs, timeout=timeout, args=st.harness_args)
     res = dict(harness_rc=rc, harness_err=err if rc != 0 else "", go_obs=go_obs, model_obs=model_obs)
     go_lines = brv.read_lines(go_obs) if go_obs.exists() else []
     res["go_lines"] = go_lines
@@ -116,7 +121,12 @@ def _shrink_on_monitor(st, script, sig, wd):
         return ops
 
 
+_TIER = "thorough"
+
+
 def run_check(spec, tier, seed, replay=None):
+    global _TIER
+    _TIER = tier
     t0 = time.time()
     prop = spec.prop
     wd = brv.WORK / prop
